@@ -527,6 +527,37 @@ class _SparseProxy:
 
     def __getattr__(self, n):
         real = getattr(_sp, n)
+        if n in ('identity', 'eye', 'diags', 'spdiags'):
+            # construction helpers: inside a symbolic run they build shadows too (a real scipy matrix cannot be combined
+            # with a shadow operand)
+            from . import sparse as _ss
+
+            def helper(*a, **k):
+                if not core.active():
+                    return real(*a, **k)
+                fmt = k.pop('format', None)
+                if n in ('diags', 'spdiags') and (has_sym(list(a)) or has_sym(k)):
+                    diagonals = a[0]
+                    offsets = a[1] if len(a) > 1 else k.get('offsets', 0)
+                    shape = a[2] if len(a) > 2 else k.get('shape')
+                    if n == 'spdiags' or not _np.isscalar(offsets):
+                        raise Unsupported('scipy.sparse.%s with several diagonals of symbolic values' % n)
+                    d = funcs._as_sarr(_unlazy(diagonals))
+                    if d.ndim != 1:
+                        raise Unsupported('scipy.sparse.diags with a 2-D symbolic diagonal')
+                    m = d.shape[0] + abs(int(offsets))
+                    shape = shape or (m, m)
+                    cells_ = d.cells()
+                    rows = [i - min(int(offsets), 0) * 0 + (0 if int(offsets) >= 0 else -int(offsets)) for i in range(len(cells_))]
+                    cols = [i + (int(offsets) if int(offsets) >= 0 else 0) for i in range(len(cells_))]
+                    o = _ss.CLASSES['dia'].__new__(_ss.CLASSES['dia'])
+                    o._from_entries(list(cells_), rows, cols, shape, d.ldtype)
+                    return o.asformat(fmt) if fmt else o
+                r = real(*unwrap(list(a)), **unwrap(k))
+                sh = _ss.CLASSES[r.format](SArr.from_typed(_np.asarray(r.toarray())))
+                # scipy stores explicit zeros of a diagonal; the shadow keeps the non-zero pattern (values agree)
+                return sh.asformat(fmt) if fmt else sh
+            return helper
         if n.endswith('_matrix') and n[:-7] in ('csr', 'csc', 'lil', 'dok', 'dia', 'bsr'):
             from . import sparse as _ss
             cls = _ss.CLASSES[n[:-7]]
